@@ -175,6 +175,14 @@ func (m *Machine) ndStub(name string, args []Value) Value {
 			pub.elems[i] = p
 		}
 		return Tuple{Slice{priv, 0, 64, 64}, Slice{pub, 0, 32, 32}}
+	case "AssumeHashInjective":
+		m.hashInjective = true
+		for i := 0; i < len(m.hashLog); i++ {
+			for j := i + 1; j < len(m.hashLog); j++ {
+				m.assertHashInjective(m.hashLog[i], m.hashLog[j])
+			}
+		}
+		return nil
 	case "Freeze":
 		m.frozen = m.nodeSeq
 		return nil
